@@ -29,10 +29,10 @@ ArbCfg(cfg) == [n |-> cfg.n, feat |-> SysF(cfg), intr |-> [k \in 1..cfg.n |-> [f
 SramCfg(cfg) == [rows |-> cfg.sram.rows, nb |-> cfg.g * cfg.cdw, gb |-> cfg.cdw,
                  writable |-> cfg.sram.writable, init |-> cfg.sram.init]
 BrCfg(cfg) == [n |-> cfg.g, caw |-> cfg.csr.caw]
-MuxCfg(cfg) == [dw |-> cfg.cdw, regs |-> cfg.regs]
+SysMuxCfg(cfg) == [dw |-> cfg.cdw, regs |-> cfg.regs]
 
 SysInit(cfg) == [arb |-> ArbInit(ArbCfg(cfg)), sram |-> SrInit(SramCfg(cfg)), br |-> BrInit(BrCfg(cfg)),
-                 mux |-> MuxInit(MuxCfg(cfg)), store |-> [k \in 1..Len(cfg.regs) |-> cfg.regs[k].init]]
+                 mux |-> MuxInit(SysMuxCfg(cfg)), store |-> [k \in 1..Len(cfg.regs) |-> cfg.regs[k].init]]
 
 \* ---- the wiring ---------------------------------------------------------------------------------------
 WordBits(cfg) == cfg.g * cfg.cdw
@@ -60,7 +60,7 @@ BridgeIn(cfg, st, b) == [cyc |-> IF InCsr(cfg, b.adr) THEN b.cyc ELSE 0, stb |->
                          sel |-> b.sel, dat_w |-> Lanes(cfg, b.dat_w),
                          csr_r_data |-> st.mux.rd]           \* the multiplexer's read data feeds the bridge
 \* what the bridge presents to the multiplexer, and the registers' read values
-MuxIn(cfg, st, in, b) ==
+SysMuxIn(cfg, st, in, b) ==
   LET c == BrCsr(BrCfg(cfg), st.br, BridgeIn(cfg, st, b)) IN
   [addr |-> c.addr, r_stb |-> c.r_stb, w_stb |-> c.w_stb,
    w_data |-> IF c.w_stb = 1 THEN c.w_data ELSE Zeros(cfg.cdw),
@@ -84,11 +84,11 @@ SysIntr(cfg, st, in, k) ==
 \* ---- one clock edge -----------------------------------------------------------------------------------
 SysStep(cfg, st, in) ==
   LET b  == Shared(cfg, st, in)
-      mi == MuxIn(cfg, st, in, b) IN
+      mi == SysMuxIn(cfg, st, in, b) IN
   [arb   |-> ArbStep(ArbCfg(cfg), st.arb, ArbIn(cfg, in, TgtResp(cfg, st, b))),
    sram  |-> SrStep(SramCfg(cfg), st.sram, SramIn(cfg, b)),
    br    |-> BrStep(BrCfg(cfg), st.br, BridgeIn(cfg, st, b)),
-   mux   |-> MuxStep(MuxCfg(cfg), st.mux, mi),
+   mux   |-> MuxStep(SysMuxCfg(cfg), st.mux, mi),
    \* a csr.action.RW field takes element.w_data at the edge that ends its write strobe cycle
    store |-> [k \in 1..Len(cfg.regs) |->
                 IF cfg.regs[k].kind = "rw" /\ ExpWStb(st.mux, k) THEN st.mux.wdat ELSE st.store[k]]]
